@@ -182,9 +182,12 @@ def Y1(ctx, rows=None):
         _join_edge(ctx, "rt::execution::Execution::new_thread", "spawn: child causality joins the parent's")
     if rows is None or "unpark" in rows:
         n += 1
-        # the edge belongs to the unpark operation, wherever its body lives (Thread::unpark or inlined into Set::unpark)
-        _join_edge(ctx, "rt::thread::Thread::unpark" if prog.fn("rt::thread::Thread::unpark") else "rt::thread::Set::unpark",
-                   "unpark: target causality joins the unparker's")
+        # the edge belongs to the unpark operation, wherever its body lives (Thread::unpark or inlined into Set::unpark); it is
+        # either a direct join or - std's semantics - deposited with the token and acquired by the park that consumes it
+        from . import round6
+        if not round6.Y1u(ctx):
+            _join_edge(ctx, "rt::thread::Thread::unpark" if prog.fn("rt::thread::Thread::unpark") else "rt::thread::Set::unpark",
+                       "unpark: target causality joins the unparker's")
     return n
 
 
@@ -474,6 +477,11 @@ def Y2(ctx):
                 # the unpark edge written in place: only the unparker's own clock may be the source
                 src_ok = mentions_field(arg_expr(prog.fns[w["fn"]].body, cons[1], 1), T, "causality") is not None
                 allowed_here = src_ok
+            elif fk == "rt::park" and cons:
+                # the acquire half of the unpark edge: only the clock the unpark operation deposited may be the source
+                from . import round6
+                uc = round6.unpark_clock_field(prog)
+                allowed_here = uc is not None and mentions_field(deep(prog, w["fn"], arg_expr(prog.fns[w["fn"]].body, cons[1], 1)), T, uc[0]) is not None
             else:
                 allowed_here = fk in ALLOWED_CAUSALITY_JOIN or src_ok
             if allowed_here:
